@@ -213,7 +213,7 @@ def execute(prop, tier, plan, seed, wdir):
         lock_analysis(prop, plan, wdir, seed, res, cov)
     for st in plan.get("stress", {}).get(tier, []):
         from check import run as shrun, BIN
-        rc, out = shrun(f"{BIN} stress --seed {seed} --rounds {st['rounds']} --threads {st['threads']} --ops {st['ops']} --timeout-ms {st.get('timeout_ms', 20000)}", 3600)
+        rc, out = shrun(f"{BIN} stress --seed {seed} --rounds {st['rounds']} --threads {st['threads']} --ops {st['ops']} --timeout-ms {st.get('timeout_ms', 20000)} {st.get('args', '')}", 3600)
         info = {}
         for line in out.splitlines():
             if line.startswith("STRESS "):
@@ -275,6 +275,44 @@ def lock_analysis(prop, plan, wdir, seed, res, cov):
     cov["reference_programs_not_seen"] = len([1 for p in ref if (p["role"], json.dumps(p["ops"])) not in seen])
     if not ex["programs"]:
         res["tool_errors"].append("no nested lock program was extracted: the lock hooks reported nothing (vacuous)")
+        return
+    about = plan.get("locks_about")
+    if about:
+        # the question is narrower than C18's: is there a wait cycle that needs a critical section of the sites `about` (e.g. the
+        # shutdown sequence)? The sections recorded in this run are combined with the reference sections of the unchanged tree;
+        # a cycle counts only if it disappears when the sections of those sites are left out.
+        have = {(p["role"], json.dumps(p["ops"])) for p in ex["programs"]}
+        allp = ex["programs"] + [p for p in ref if (p["role"], json.dumps(p["ops"])) not in have]
+        def run_locks(programs, tag):
+            path = f"{wdir}/lock-programs-{tag}.json"
+            json.dump({"programs": programs}, open(path, "w"))
+            os.makedirs(f"{wdir}/mc-locks-{tag}", exist_ok=True)
+            env = dict(os.environ); env["LOCKS"] = path
+            t = time.time()
+            pr = subprocess.run(f"timeout -k 10 600 tlc -workers 8 -metadir {wdir}/mc-locks-{tag}/meta -cleanup -noGenerateSpecTE -config MC_LocksTrace.cfg MC_LocksTrace.tla",
+                                shell=True, cwd=f"{VERIF}/spec", env=env, stdout=subprocess.PIPE, stderr=subprocess.STDOUT, text=True)
+            open(f"{wdir}/mc-locks-{tag}/tlc.out", "w").write(pr.stdout)
+            m = re.search(r"(\d+) states generated, (\d+) distinct states found", pr.stdout)
+            return {"module": "MC_LocksTrace", "cfg": "MC_LocksTrace", "constants": f"5 thread slots x ({tag}) critical sections recorded in this run + reference sections, all interleavings",
+                    "generated": int(m.group(1)) if m else None, "distinct": int(m.group(2)) if m else None, "wall_s": round(time.time() - t, 1),
+                    "ok": "No error has been found" in pr.stdout, "violated": re.findall(r"Invariant (\w+) is violated", pr.stdout), "exhaustive": True}, pr.stdout
+        rec, out = run_locks(allp, "all")
+        cov["mc_instances"].append(rec)
+        cov["states"] += rec["distinct"] or 0
+        cov["transitions"] += rec["generated"] or 0
+        cov["critical_sections_of_" + about] = [c for c in cov["lock_programs_extracted"] if c["where"].startswith(about)]
+        if rec["violated"]:
+            rec2, _ = run_locks([p for p in allp if not p.get("where", "").startswith(about)], "without-" + about)
+            cov["mc_instances"].append(rec2)
+            if rec2["ok"]:
+                path = f"{WORK}/replay/{prop}-lockorder.json"
+                idx = out.find("Error: Invariant")
+                json.dump({"property": prop, "verdict": "potential deadlock", "violated": rec["violated"], "programs": allp,
+                           "tlc_counterexample": out[idx:idx + 6000]}, open(path, "w"), indent=1)
+                res["violations"].append({"replay": path, "what": f"a cycle of lock waits that involves a critical section of {about}* is reachable: the call can block for ever "
+                                          f"(sections of those sites: {[c['ops'] for c in cov['critical_sections_of_' + about]][:4]})"})
+        elif not rec["ok"]:
+            res["tool_errors"].append(f"Locks.tla run failed; see {wdir}/mc-locks-all/tlc.out")
         return
     cmd = (f"timeout -k 10 600 tlc -workers 8 -metadir {wdir}/mc-locks/meta -cleanup -noGenerateSpecTE -config MC_LocksTrace.cfg MC_LocksTrace.tla")
     os.makedirs(f"{wdir}/mc-locks", exist_ok=True)
